@@ -50,6 +50,11 @@ CLAIMED = {
         "text": "Every construction of a Node/Path/Branch/Compartment view in the package is typed: an .id/.pid read from a node of a view is an id of the view's owner and may not be used as a position inside the view. Accessors of all sibling view classes are owner.get_ndata(key)[idx]; node properties read and write the same column. Ownership interpreter: the tree's accessor returns the owner's storage, a store through a tree node reaches it, detach() of every view class and copy() return storage disjoint from the original. The integer-index arms of Tree/Path/population are folded over keys {-7,-6,-5,-1,0,4,5,6} at n=5 against the normalisation table; slices go through slice.indices(len).",
         "note": ASSUME,
     },
+    "C12": {
+        "technique": "abstract shape inference (broadcast / matmul), product-order rule with the vector convention read from the code, literal-matrix layout tables, axis-family substitution, ownership interpretation",
+        "text": "Matrix builders: abstract shapes show every builder returns (4,4) with no definite broadcast or inner-dimension error; each literal matrix is abstracted cell by cell to {0,1,cos,+-sin,+-param} and compared with the definition (translation column, scale diagonal, right-handed axis rotations, cross-product matrix and the three signed Rodrigues terms). Centre conjugation: the product chain (.dot / @ / np.dot / multi_dot) is flattened, its factors classified by the sign of their translate3d arguments relative to the centre expression, and compared with the order required by the vector convention that `apply` itself uses; the centre expression must be the root's position. apply(): x,y,z,w stacking, perspective divide, rows 0..2 stored to x,y,z of a copy as one axis family, nothing else stored; each transform class wires its own parameters to its own builder.",
+        "note": ASSUME,
+    },
 }
 
 NOT_BUILT = "check not built yet in this round (planned, see DESIGN.md section 4); nothing is claimed"
